@@ -88,6 +88,7 @@ def run(ctx):
     crashed = [t for t in traces if 'crash' in t]
     if crashed:
         raise tlc.MachineryError('replayer crashed outside a recorded call:\n' + crashed[0]['crash'])
+    traces = [t for t in traces if 'skip' not in t]
     mon = tlc.run_monitor('Mon_Hist', traces, cfg='Mon_Hist.cfg', shards=16, timeout=1800)
     out = {'n_traces': len(traces), 'n_graphs': len(gs), 'problems': len(mc_summary), 'states': mon['states'],
            'transitions': mon['transitions'], 'mc': mc_summary, 'fails': [], 'n_events': sum(len(t['ev']) for t in traces),
